@@ -99,6 +99,37 @@ pub fn vx_split_str<'a>(s: &'a str, sep: &str) -> (r: Vec<&'a str>)
     s.split(sep).collect()
 }
 
+/// index of the first occurrence of c in s, or s.len()
+pub open spec fn first_occurrence(s: Seq<char>, c: char) -> int
+    decreases s.len()
+{
+    if s.len() == 0 || s[0] == c { 0 } else { 1 + first_occurrence(s.drop_first(), c) }
+}
+pub proof fn lemma_first_occurrence(s: Seq<char>, c: char)
+    ensures 0 <= first_occurrence(s, c) <= s.len(),
+        forall|j: int| 0 <= j < first_occurrence(s, c) ==> s[j] != c,
+        first_occurrence(s, c) < s.len() ==> s[first_occurrence(s, c)] == c,
+    decreases s.len()
+{
+    if s.len() > 0 && s[0] != c {
+        lemma_first_occurrence(s.drop_first(), c);
+        assert forall|j: int| 0 <= j < first_occurrence(s, c) implies s[j] != c by { if j > 0 { assert(s[j] == s.drop_first()[j - 1]); } }
+        if first_occurrence(s, c) < s.len() { assert(s[first_occurrence(s, c)] == s.drop_first()[first_occurrence(s, c) - 1]); }
+    }
+}
+
+// TRUSTED[str-split-once-char]: `s.split_once(p)` for a one-character pattern splits at the first occurrence of that character (std doc:
+// "Splits the string on the first occurrence of the specified delimiter and returns prefix before delimiter and suffix after delimiter"),
+// None if it does not occur.
+#[verifier::allow(undeclared_external_trait)]
+pub assume_specification<'a, P: std::str::pattern::Pattern> [str::split_once::<P>] (s: &'a str, p: P) -> (r: Option<(&'a str, &'a str)>)
+    ensures super::trusted_strings::pattern_text::<P>(p).len() == 1 ==> ({
+        let c = super::trusted_strings::pattern_text::<P>(p)[0];
+        match r {
+            Some((a, b)) => first_occurrence(s@, c) < s@.len() && a@ == s@.take(first_occurrence(s@, c)) && b@ == s@.skip(first_occurrence(s@, c) + 1),
+            None => first_occurrence(s@, c) == s@.len(),
+        } });
+
 // TRUSTED[option-get-or-insert-with]: std doc: "Inserts a value computed from f into the option if it is None, then returns a mutable
 // reference to the contained value."
 #[verifier::allow(undeclared_external_trait)]
